@@ -9,7 +9,7 @@ ATOMS = [b'a', b'\n', b'\x00', b'\xc3\xa9', b'\xe3\x81\x82', b'\xf0\x9f\x98\x80'
 RULE = ('device output = concatenation of <=k atoms from a UTF-8-hostile alphabet (ASCII, NL, NUL, 2/3/4-byte sequences, 0xff, lone lead, '
         'lone continuation) plus the empty output; ALL 2^(n-1) partitions of the n-byte output into WRTE payloads (choice point) x '
         '{shell, exec_out, streaming_shell, root} x decode x {sync, async} x CLSE {after ack, eager}; large payloads at maxdata boundaries; '
-        'read-fragment deviations; a slow chatty device (every packet within the read timeout, the command longer than it, within timeout_s); a second live stream with distinct bytes in flight under every device wire order; an OPEN answered only after the caller timed out, followed by further commands; a device without stop-and-wait that writes up to 1000 packets of a suspended stream while another command runs; oracle = device-side '
+        'read-fragment deviations; a slow chatty device (every packet within the read timeout, the command longer than it, within timeout_s); two device objects in one process (equal ids, suspended streams, parked packets); a second live stream with distinct bytes in flight under every device wire order; an OPEN answered only after the caller timed out, followed by further commands; a device without stop-and-wait that writes up to 1000 packets of a suspended stream while another command runs; oracle = device-side '
         'per-stream payload record and Python bytes.decode(utf8, backslashreplace); non-trivial = output non-empty; distinct = distinct '
         '(output, partition, api, decode, twin, close timing, deviations)')
 ASSUMPTIONS = ['adbsim is a faithful adbd model (one unacknowledged WRTE per stream, CLSE after the last ack or eagerly)',
@@ -140,6 +140,34 @@ def run_iso(params, ch):
         s.finish()
 
 
+def run_two_devices(params, ch):
+    """Two device objects of the same flavour in one process, each with a suspended streaming_shell, the device ids of both connections
+    equal (as on every fresh connection).  Device X runs another command, which parks the suspended stream's next payload; then both
+    suspended streams are drained.  Every stream yields exactly what ITS device wrote."""
+    twin = params['twin']
+    fam = {'remote_ids': (1, 2, 3, 4)} if params['ids'] == 'like-host' else {}
+    cx = dict({'shell': {b'shell:sus': [b'X-1', b'X-2', b'X-3'], b'shell:c': [b'xc']}, 'clse': params['clse']}, **fam)
+    cy = dict({'shell': {b'shell:sus': [b'Y-1', b'Y-2'], b'shell:c': [b'yc']}, 'clse': params['clse']}, **fam)
+    sx = Session(ch, cx, twin=twin)
+    sy = Session(ch, cy, twin=twin, **({'share_loop': sx.loop} if twin == 'async' else {}))
+    try:
+        res = [sx.op(('connect',)), sy.op(('connect',)), sx.op(('gen-start', 'sus', {'decode': False})), sy.op(('gen-start', 'sus', {'decode': False})),
+               sx.op(('shell', 'c', {'decode': False})), sy.op(('gen-rest', 0)), sx.op(('gen-rest', 0)), sy.op(('shell', 'c', {'decode': False}))]
+        want = [('ok', True), ('ok', True), ('ok', b'X-1'), ('ok', b'Y-1'), ('ok', b'xc'), ('ok', [b'Y-2']), ('ok', [b'X-2', b'X-3']), ('ok', b'yc')]
+        viol = []
+        for i, (r, w) in enumerate(zip(res, want)):
+            if r != w:
+                viol.append({'msg': 'two devices in one process: step %d gave %r, its device wrote %r' % (i, r, w[1])})
+                break
+        for nm, s_ in (('X', sx), ('Y', sy)):
+            viol += [{'msg': 'device %s: %s: %s' % ((nm,) + i)} for i in s_.env.issues]
+        return {'outcome': tuple(r[0] for r in res), 'viol': viol, 'nontrivial': (tuple(sorted((k, str(v)) for k, v in params.items())), tuple(ch.choices)), 'sample': dict(params, results=[r[0] for r in res]),
+                'trans': len(sx.env.events) + len(sy.env.events)}
+    finally:
+        sy.finish()
+        sx.finish()
+
+
 def run_backlog(params, ch):
     """A device that does not wait for acknowledgements writes m packets of a suspended stream while another command runs: they
     all have to be parked and delivered later, in order."""
@@ -245,6 +273,9 @@ def parts(tier):
             for sl in ((0.3, 1.0, None), (0.3, 1.0, 30.0), (0.3, 1.0, 6.0), (0.9, 1.0, 60.0), (0.05, 0.1, 5.0))]
     out.append(Part('slow-chatty-device', slow, run_one, what='a slow device: 2/6/16 one-byte WRTEs, each within the read timeout, the whole command longer than the read timeout but within timeout_s',
                     bound='%d cases' % len(slow)))
+    two = [{'twin': t, 'clse': c, 'ids': i} for t in ('sync', 'async') for c in ('after-ack', 'eager') for i in ('like-host', 'default')]
+    out.append(Part('two-devices', two, run_two_devices, {'dev-order': None}, what='two device objects in one process with equal stream ids, each with a suspended stream; one runs a command that parks packets; all wire orders',
+                    bound='%d cases x all wire orders' % len(two), min_outcomes=1))
     out.append(Part('isolation', iso, run_iso, {'dev-order': None}, what='second live stream with bytes in flight, all device wire orders',
                     bound='all dev-order choices'))
     late = [{'twin': t, 'api': a, 'decode': d, 'clse': c, 'delay': dl, 'nlate': nl} for t in twins for a in apis for d in (True, False) for c in ('after-ack', 'eager')
